@@ -5,7 +5,7 @@
    kind does not apply to the class). *)
 EXTENDS Loc
 
-Classes == {"SI", "CI", "SEQ", "CDS", "TX", "FEAT", "GENE", "VAR", "VCOLL", "COLL", "PARENT", "CODON", "QPOS", "FSI", "RPOS"}
+Classes == {"SI", "CI", "SEQ", "CDS", "TX", "FEAT", "GENE", "VAR", "VCOLL", "COLL", "PARENT", "CODON", "QPOS", "FSI", "RPOS", "PMODEL"}
 Kinds == {"start>end", "negative", "beyond-sequence", "length-mismatch", "frames-mismatch", "cds-outside-exons",
           "undirected", "wrong-alphabet", "overlapping", "duplicate", "empty", "mixed-frame-phase", "multi-primary",
           "half-bounds", "strand-mismatch", "zero-length", "beyond-sequence-not-last", "gap-letter", "too-short", "too-long", "trailing-newline", "leading-blank",
@@ -46,6 +46,9 @@ Valid(cls, a) ==
                        0 <= s /\ a[1] <= s /\ s < e /\ e <= a[2]
     [] cls = "FSI" -> Len(a[1]) >= 1 /\ (\A i, j \in DOMAIN a[1] : a[1][i] = a[1][j]) /\ (\A i, j \in DOMAIN a[2] : a[2][i] = a[2][j])
     [] cls = "RPOS" -> Pairwise(a[1], a[2]) /\ 0 <= a[4] /\ a[4] < SumSeq([i \in DOMAIN a[1] |-> a[2][i] - a[1][i]])
+    \* PMODEL = <<hasSequenceName, start | -1, end | -1>> : the data-model form of a SEQUENCE CHUNK parent (with sequence)
+    \* needs a name and BOTH bounds of the chunk
+    [] cls = "PMODEL" -> a[1] /\ a[2] >= 0 /\ a[3] >= 0
     [] cls = "CODON" -> Len(a[1]) = 3 /\ \A i \in DOMAIN a[1] : a[1][i] \in AllCases(IupacLetters)
 (* corruptions: each yields an INVALID tuple when it applies (checked by TLC in ValidityMC) *)
 Bump(s, i, v) == [s EXCEPT ![i] = v]
@@ -89,6 +92,9 @@ Corrupt(cls, a, kind) ==
     [] cls = "VCOLL" /\ kind = "overlapping" -> <<Append(a[1], <<a[1][1][1], a[1][1][2] + 1>>)>>
     [] cls = "VCOLL" /\ kind = "empty" -> <<<<>>>>
     [] cls = "COLL" /\ kind = "half-bounds" -> <<0, -1, a[3]>>
+    [] cls = "PMODEL" /\ kind = "half-bounds" -> <<a[1], a[2], -1>>
+    [] cls = "PMODEL" /\ kind = "zero-start" -> <<a[1], -1, a[3]>>
+    [] cls = "PMODEL" /\ kind = "parent-missing" -> <<FALSE, a[2], a[3]>>
     [] cls = "PARENT" /\ kind = "beyond-sequence" /\ a[2] >= 0 -> <<a[2] + 1, a[2], a[3], a[4]>>
     [] cls = "PARENT" /\ kind = "strand-mismatch" -> <<a[1], a[2], "-", "+">>
     [] cls = "CODON" /\ kind = "gap-letter" -> <<Bump(a[1], 3, "-")>>
